@@ -19,12 +19,29 @@ AfterRaise(s, e) ==
   THEN {Cl("NextEditAfterRaise", e.outcome = e.clean.outcome /\ e.post.text = e.clean.text /\ e.post.reg)}
   ELSE {}
 
+(* other edits of C01's list: put_docstr / put_line_comment / par().  They are  *)
+(* edits (Sync, RootIdentity, atomic on raise) that leave the structure alone   *)
+(* (comments, parentheses) or change only the docstring statement of `body`.    *)
+MiscClauses(s, e) ==
+  LET t == e.post IN
+  IF e.outcome = "ok"
+  THEN { Cl("RootIdentity", t.rootObj = s.rootObj), Cl("RegistryQuiescent", t.reg) }
+       \cup (IF Sync(s) THEN {Cl("Sync", Sync(t))} ELSE {})
+       \cup (IF e.op \in {"put_line_comment", "par"} THEN {Cl("NothingElse", t.liveS = s.liveS)}
+             ELSE IF e.op = "put_docstr" THEN {Cl("NothingElse", OnlyChangedAt(s.liveS, t.liveS, e.path, {"body"}))}
+             ELSE {})
+  ELSE { Cl("AtomicOnRaise.tree", t.liveP = s.liveP /\ t.liveS = s.liveS), Cl("AtomicOnRaise.text", t.text = s.text),
+         Cl("AtomicOnRaise.srcparse", t.srcOk = s.srcOk /\ t.srcP = s.srcP),
+         Cl("RootIdentity", t.rootObj = s.rootObj), Cl("RegistryQuiescent", t.reg) }
+
 Clauses(s, e) ==
   CASE e.call = "edit" -> EditClauses(s, e) \cup AfterRaise(s, e)
+    [] e.call = "misc" -> MiscClauses(s, e)
     [] OTHER -> {Cl("UnknownEvent", FALSE)}
 
 ClassOf(s, e) ==
   CASE e.call = "edit" -> EditClass(s, e)
+    [] e.call = "misc" -> Kind(NodeAt(s.liveS, e.path)) \o "/" \o e.op
     [] OTHER -> "?"
 
 Init == /\ tid \in 1..Len(Traces)
